@@ -349,6 +349,8 @@ func genProgram(r *hxlib.Rng, work string, idx int, aliasCollision bool) *Job {
 		}
 		fmt.Fprintf(&sb, "\nfunc %s(x uint32) uint32 {\n%s\treturn %s\n}\n", p.Func, strings.Join(pre, ""),
 			strings.Join(terms, " + "))
+		// a function whose instantiation fails (used by the failing-history programs only)
+		fmt.Fprintf(&sb, "\nfunc Bad%s(x uint32) uint32 {\n\treturn x + nosuchvar%s\n}\n", L, L)
 		p.src = sb.String()
 		write(p.Name, p.src)
 		pk = append(pk, p)
